@@ -70,8 +70,16 @@ func (c *Ctx) add(rule, key, pos, verdict, detail string) {
 // Check records an obligation as discharged or violated.
 func (c *Ctx) Check(rule, key, pos string, ok bool, detail string) bool {
 	v := Discharged
+	// detail is the failure text; "okText||failText" gives both.
+	okText, failText := "", detail
+	if i := strings.Index(detail, "||"); i >= 0 {
+		okText, failText = detail[:i], detail[i+2:]
+	}
 	if !ok {
 		v = Violated
+		detail = failText
+	} else {
+		detail = okText
 	}
 	c.add(rule, key, pos, v, detail)
 	return ok
